@@ -359,7 +359,10 @@ def dot(a, b):
 
 @derived_from(np)
 def vdot(a, b):
-    return dot(a.conj().ravel(), b.ravel())
+    if a.dtype.kind not in "biuf":
+        # conj is the identity on real numbers, but turns booleans into int8
+        a = a.conj()
+    return dot(a.ravel(), b.ravel())
 
 
 def _chunk_sum(a, axis=None, dtype=None, keepdims=None):
